@@ -7,6 +7,8 @@ pub struct SearchTimer {
     start_time: Option<Instant>,
     time_limit: Option<Duration>,
     nodes_searched: u64,
+    #[cfg(flounder_verif)]
+    pub verif: VerifTimerHooks,
 }
 
 impl SearchTimer {
@@ -16,6 +18,8 @@ impl SearchTimer {
             start_time: None,
             time_limit: None,
             nodes_searched: 0,
+            #[cfg(flounder_verif)]
+            verif: VerifTimerHooks::default(),
         }
     }
 
@@ -27,6 +31,8 @@ impl SearchTimer {
         self.start_time = Some(Instant::now());
         self.time_limit = time_limit;
         self.nodes_searched = 0;
+        #[cfg(flounder_verif)]
+        self.verif.on_start();
     }
 
     /// Resets the timer without changing the time limit
@@ -40,6 +46,8 @@ impl SearchTimer {
     #[inline]
     pub fn increment_nodes(&mut self) {
         self.nodes_searched += 1;
+        #[cfg(flounder_verif)]
+        self.verif.on_node(self.nodes_searched);
     }
 
     /// Adds multiple nodes to the counter
@@ -57,6 +65,10 @@ impl SearchTimer {
     /// # Returns
     /// `true` if time limit exceeded, `false` otherwise
     pub fn should_stop(&self) -> bool {
+        #[cfg(flounder_verif)]
+        if let Some(expired) = self.verif.poll(self.nodes_searched) {
+            return expired;
+        }
         if let (Some(start), Some(limit)) = (self.start_time, self.time_limit) {
             start.elapsed() >= limit
         } else {
@@ -118,6 +130,8 @@ impl SearchTimer {
     /// * `score` - Current best score (in centipawns)
     /// * `best_move` - Current best move
     pub fn print_info(&self, depth: u8, score: i32, best_move: Option<Move>) {
+        #[cfg(flounder_verif)]
+        self.verif.infos.borrow_mut().push((depth, score, self.nodes_searched, best_move));
         print!(
             "info depth {} score cp {} nodes {} time {} nps {}",
             depth,
@@ -167,6 +181,64 @@ impl SearchTimer {
 impl Default for SearchTimer {
     fn default() -> Self {
         Self::new()
+    }
+}
+
+
+/// Verification hooks (only with `--cfg flounder_verif`): a deterministic deadline expressed
+/// in nodes instead of wall-clock time, counters around the first observed expiry, a hard node
+/// cap that turns a runaway search into a recognisable panic, and the in-process image of the
+/// `info` lines.  Nothing here changes behaviour unless a limit or cap is set by the harness.
+#[cfg(flounder_verif)]
+#[derive(Debug, Clone, Default)]
+pub struct VerifTimerHooks {
+    /// deadline in nodes: `should_stop()` answers `nodes_searched >= limit`
+    pub node_limit: Option<u64>,
+    /// panic once `nodes_searched` exceeds this (watchdog for the harness)
+    pub hard_cap: Option<u64>,
+    /// node count at the first poll that returned true
+    pub first_true_at: std::cell::Cell<Option<u64>>,
+    /// number of polls that returned true
+    pub polls_true: std::cell::Cell<u64>,
+    /// number of polls in total
+    pub polls: std::cell::Cell<u64>,
+    /// (depth, score, nodes, best move) of every completed iteration since the last start
+    pub infos: std::cell::RefCell<Vec<(u8, i32, u64, Option<Move>)>>,
+}
+
+#[cfg(flounder_verif)]
+impl VerifTimerHooks {
+    fn on_start(&mut self) {
+        self.first_true_at.set(None);
+        self.polls_true.set(0);
+        self.polls.set(0);
+        self.infos.borrow_mut().clear();
+    }
+
+    fn on_node(&self, nodes: u64) {
+        if let Some(cap) = self.hard_cap {
+            if nodes > cap {
+                panic!("flounder_verif: node hard cap exceeded");
+            }
+        }
+    }
+
+    fn poll(&self, nodes: u64) -> Option<bool> {
+        let limit = self.node_limit?;
+        self.polls.set(self.polls.get() + 1);
+        let expired = nodes >= limit;
+        if expired {
+            self.polls_true.set(self.polls_true.get() + 1);
+            if self.first_true_at.get().is_none() {
+                self.first_true_at.set(Some(nodes));
+            }
+        }
+        Some(expired)
+    }
+
+    /// Has the node deadline passed?  (Does not count as a poll.)
+    pub fn expired(&self, nodes: u64) -> bool {
+        matches!(self.node_limit, Some(limit) if nodes >= limit)
     }
 }
 
